@@ -86,7 +86,17 @@ def run_one(ctx, A, C, p, kind, eps, suc, tol, so, bits_vec, replay_base):
                 ctx.count("settings:library-defaults")        # the documented defaults, left to the library
                 ph = A.QuantumSignalProcessingPhases(pobj, signal_operator=so)
             else:
-                ph = A.QuantumSignalProcessingPhases(pobj, eps=eps, suc=suc, signal_operator=so, tolerance=tol)
+                # the same request in the forms the signature allows: keywords, positional arguments, NumPy scalars
+                cform = zlib.crc32(repr((list(p), so, eps, suc, tol, "call-form")).encode()) % 4
+                ctx.count("calling-form:" + ["keywords", "positional", "numpy-scalars", "positional+omitted-measurement"][cform])
+                if cform == 1:
+                    ph = A.QuantumSignalProcessingPhases(pobj, eps, suc, so, None, tol)
+                elif cform == 2:
+                    ph = A.QuantumSignalProcessingPhases(pobj, eps=np.float64(eps), suc=np.float64(suc), signal_operator=so, tolerance=np.float64(tol))
+                elif cform == 3:
+                    ph = A.QuantumSignalProcessingPhases(pobj, eps, suc, so, tolerance=tol, method="laurent")
+                else:
+                    ph = A.QuantumSignalProcessingPhases(pobj, eps=eps, suc=suc, signal_operator=so, tolerance=tol)
         out = ("ok", [float(x) for x in ph])
         core.poison(ph)          # the caller owns the returned list; the library must not have kept it
     except C.CompletionError as e:
